@@ -734,6 +734,19 @@ class TrajectoryStore:
                     'All trajectories in a TrajectoryStore must have the same '
                     'data fields'
                 )
+            # The species dimension is fixed by the files as well: values
+            # for a species outside it cannot be stored.
+            for fs_name, nc_file in self._nc.items():
+                for name, field in FieldSet.from_registry(fs_name).items():
+                    val = trajectory._data.get(name)
+                    if Dimension.SPECIES in field.dimensions and val is not None:
+                        extra = set(val.keys()) - set(nc_file.species or [])
+                        if extra:
+                            raise ValueError(
+                                f'Data field "{name}" has species '
+                                f'{sorted(sp.name for sp in extra)} that are not '
+                                'in the species dimension of the NetCDF file'
+                            )
 
         # Required fields must have values. Check this before touching any
         # state, so that a rejected trajectory leaves the store exactly as it
